@@ -1,6 +1,8 @@
 import Dicom.Model.Bytes
 import Dicom.Spec.StatusSpec
 import Dicom.Spec.Table910
+import Dicom.Model.Framing
+import Dicom.Model.Dimse
 /-! Line-protocol driver: one op per input line, one output line per op.
 Imports models and specifications only (never Generated or Props), core Lean only. -/
 open Dicom
@@ -63,6 +65,28 @@ def parseObs (s : String) : Option Obs :=
       else ((es.splitOn ";").mapM parseEff).map fun l => .did l st
   | _ => none
 
+/-! ### C03 / C06 / C07 ops -/
+def fragText (f : Frag) : String := s!"{f.pc}.{f.mch}.{bytesToHex f.body}"
+
+def parseFrag (s : String) : Option Frag :=
+  match s.splitOn "." with
+  | [pc, mch, hex] =>
+    match pc.toNat?, mch.toNat?, hexToBytes hex with
+    | some pc, some mch, some b => some ⟨pc, mch, b⟩
+    | _, _, _ => none
+  | _ => none
+
+def decText (d : Dec) : String :=
+  s!"recv={d.receiving} cmdDone={d.cmdDone} dataDone={d.dataDone} pc={d.pc} cmd={bytesToHex d.cmd} data={bytesToHex d.data}"
+
+/-- decoder run that also reports, per PDU, whether the decoder is still receiving afterwards -/
+def decTrace (noDs : Bool) : Dec → List (List Frag) → List String
+  | _, [] => []
+  | d, p :: ps =>
+    match Dec.pdu (fun _ => noDs) d p with
+    | none => ["error"]
+    | some d' => if d'.receiving then "recv" :: decTrace noDs d' ps else ["done " ++ decText d']
+
 def step (line : String) : String :=
   match line.trimAscii.toString.splitOn " " with
   | ["ping"] => "pong"
@@ -89,6 +113,22 @@ def step (line : String) : String :=
       | some a => reprStr a
       | none => "-"
     | _, _ => "bad-op"
+  | "frames" :: segs =>
+    match segs.mapM hexToBytes with
+    | some bs =>
+      let r := bs.foldl feed ([], [])
+      s!"{",".intercalate (r.1.map bytesToHex)} | {bytesToHex r.2}"
+    | none => "bad-op"
+  | ["frag", kind, pc, mx, cmd, data] =>
+    match pc.toNat?, mx.toNat?, hexToBytes cmd, (if data = "none" then some none else (hexToBytes data).map some) with
+    | some pc, some mx, some cmd, some data =>
+      let fs := if kind = "file" then encodeMsgFile pc mx cmd data else encodeMsg pc mx cmd data
+      " ".intercalate (fs.map fragText)
+    | _, _, _, _ => "bad-op"
+  | "dec" :: noDs :: groups =>
+    match (groups.mapM fun g => (g.splitOn ",").mapM parseFrag) with
+    | some gs => " ".intercalate (decTrace (noDs = "1") {} gs)
+    | none => "bad-op"
   | _ => "bad-op"
 
 partial def loop (h : IO.FS.Stream) (out : IO.FS.Stream) : IO Unit := do
